@@ -1,5 +1,5 @@
 (* C18 -- concatPaths, pathIndicatesDirectory, prettyPath against their documented tables;
-   relativePath inverse law (bounded sweep, see C18_relative_inverse_partial). *)
+   relativePath: executable check used for the sweep Example (the unbounded proof is C18_Proofs_Rel.v). *)
 From Coq Require Import List Arith Bool Ascii Lia.
 From DuneV Require Import Params_gen C18_Model C18_Spec C18_Proofs_Str C18_Proofs_Passes C18_Proofs_Pass4 C18_Proofs.
 Import ListNotations.
@@ -84,36 +84,6 @@ Definition c18_path_alpha : list ascii := ["/"; "."; "a"; "b"].
 Lemma c18_relative_sweep :
   forallb (fun a => forallb (fun b => c18_rel_check a b) (c18_strings c18_path_alpha 4)) (c18_strings c18_path_alpha 4) = true.
 Proof. vm_compute. reflexivity. Qed.
-
-Lemma c18_eq_comps_eq : forall a b, c18_eq_comps a b = true -> a = b.
-Proof.
-  induction a as [|x a IH]; destruct b as [|y b]; simpl; intro H; try discriminate; [reflexivity|].
-  apply andb_true_iff in H. destruct H as [H1 H2]. apply c18_eqs_eq in H1. rewrite H1, (IH b H2). reflexivity.
-Qed.
-
-Lemma c18_eq_loc_eq : forall a b, c18_eq_loc a b = true -> a = b.
-Proof.
-  intros [[aa au] ac] [[ba bu] bc] H. unfold c18_eq_loc in H.
-  apply andb_true_iff in H. destruct H as [H H3]. apply andb_true_iff in H. destruct H as [H1 H2].
-  apply eqb_prop in H1. apply Nat.eqb_eq in H2. apply c18_eq_comps_eq in H3. congruence.
-Qed.
-
-Lemma c18_relative_inverse_bounded : forall a b,
-  In a (c18_strings c18_path_alpha 4) -> In b (c18_strings c18_path_alpha 4) ->
-  (forall r, c18_relativePath a b = C18_Ok r ->
-     c18_denote (c18_concatPaths a r) = c18_denote b /\ c18_nf r = true /\ c18_spec_rel_defined a b = true)
-  /\ (c18_relativePath a b = C18_NotImplemented -> c18_spec_rel_defined a b = false)
-  /\ c18_relativePath a b <> C18_OutOfFuel.
-Proof.
-  intros a b Ha Hb. pose proof c18_relative_sweep as S.
-  rewrite forallb_forall in S. specialize (S a Ha). rewrite forallb_forall in S. specialize (S b Hb).
-  unfold c18_rel_check in S. destruct (c18_relativePath a b) as [r| |].
-  - repeat (apply andb_true_iff in S; destruct S as [S ?]).
-    split; [|split; [discriminate | discriminate]].
-    intros r' E. inversion E; subst. split; [apply c18_eq_loc_eq; assumption | auto].
-  - apply negb_true_iff in S. split; [discriminate | split; [auto | discriminate]].
-  - discriminate.
-Qed.
 
 (* ---------------------------------------------------------------- pathIndicatesDirectory *)
 Lemma c18_sf_app : forall a b, c18_sf (a ++ b) <-> c18_sf a /\ c18_sf b.
